@@ -167,7 +167,7 @@ def _unescape_tla_string(s):
     return json.loads(s)
 
 
-def gen(module, cfg, out_path, workers=1, timeout=1800, simulate=None, seed=None, tag=None):
+def gen(module, cfg, out_path, workers=1, timeout=1800, simulate=None, seed=None, tag=None, depth=100):
     """Run a generator spec; collect one JSON object per `<<"REPLAY", "<json>">>` line into out_path."""
     tag = tag or cfg.replace(".cfg", "")
     metadir = os.path.join(WORK, "tlc", tag)
@@ -175,7 +175,7 @@ def gen(module, cfg, out_path, workers=1, timeout=1800, simulate=None, seed=None
     os.makedirs(metadir, exist_ok=True)
     extra = {"jvm": ["-Xmx8g"], "tlc": []}
     if simulate:
-        extra["tlc"] = ["-simulate", simulate] + (["-seed", str(seed)] if seed is not None else [])
+        extra["tlc"] = ["-simulate", "num=%d" % int(simulate), "-depth", str(depth)] + (["-seed", str(seed)] if seed is not None else [])
     t0 = time.time()
     p = sh(_tlc_cmd(module, cfg, metadir, workers, extra), cwd=metadir, timeout=timeout, check=False)
     n = 0
@@ -187,7 +187,7 @@ def gen(module, cfg, out_path, workers=1, timeout=1800, simulate=None, seed=None
                 n += 1
     m = _RE_STATES.search(p.stdout)
     shutil.rmtree(metadir, ignore_errors=True)
-    bad = ("Error:" in p.stdout) and not simulate
+    bad = "Error:" in p.stdout          # includes a violated generator invariant (e.g. GenChunkInv)
     if n == 0 or bad:
         raise ToolError("generator %s/%s produced %d behaviours:\n%s" % (module, cfg, n, p.stdout[-4000:]))
     log("[gen] %s/%s: %d behaviours in %.1fs" % (module, cfg, n, time.time() - t0))
